@@ -207,3 +207,42 @@ Proof.
   pose proof (window_present eps n pos r He Hpos Hr Hpp) as Hw. cbn zeta in Hw.
   subst lo hi. lia.
 Qed.
+
+(* ---- C07: the per-level routing window, on the translated macros ---- *)
+(* If the responsible segment j is within eps_r+1 of the predicted position, the scan that starts at
+   pos-(eps_r+1) reaches it after reading at most 2*eps_r+3 keys, and the binary-search window
+   [lo, hi) contains it. *)
+Theorem route_window_scan epsr pos j :
+  0 <= epsr -> 0 <= pos -> 0 <= j ->
+  pos - (epsr + 1) <= j <= pos + epsr + 1 ->
+  let lo := PGM_SUB_EPS pos (epsr + 1) in
+  0 <= lo /\ lo <= j /\ (j + 1) - lo <= 2 * epsr + 3.
+Proof.
+  intros He Hp Hj Hw. unfold PGM_SUB_EPS. destruct (pos <=? epsr + 1) eqn:E; lia.
+Qed.
+
+Theorem route_window_bsearch epsr pos j level_size :
+  0 <= epsr -> 0 <= pos -> 0 <= j < level_size ->
+  pos - (epsr + 1) <= j <= pos + epsr + 1 ->
+  let lo := PGM_SUB_EPS pos (epsr + 1) in
+  let hi := PGM_ADD_EPS pos epsr level_size in
+  lo <= j /\ j < hi /\ hi <= level_size /\ hi - lo <= 2 * epsr + 3.
+Proof.
+  intros He Hp Hj Hw. unfold PGM_SUB_EPS, PGM_ADD_EPS.
+  destruct (pos <=? epsr + 1) eqn:E1; destruct (pos + epsr + 2 >=? level_size) eqn:E2; lia.
+Qed.
+
+(* the prediction for a key at an upper level, from the eps_r-feasible line of that level:
+   the index j of a segment key fed to the upper level satisfies j-eps_r-1 <= pos <= j+eps_r *)
+Theorem route_pos_from_feasible_line epsr r1x r1y dx dy key k j t :
+  0 <= epsr -> 0 < dx -> 0 <= j ->
+  line_in_band epsr r1x r1y dx dy (k, j) ->
+  band_hi epsr j = j + epsr ->
+  ev_close dx dy (k - key) t ->
+  let icpt := round_div (dy * (key - r1x)) dx + r1y in
+  (t + icpt) - (epsr + 1) <= j <= (t + icpt) + epsr + 1.
+Proof.
+  intros He Hdx Hj Hband Hhi Hev icpt.
+  pose proof (pos_from_feasible_line epsr r1x r1y dx dy key k j t He Hdx Hj Hband Hhi Hev) as Hp.
+  cbn zeta in Hp. subst icpt. lia.
+Qed.
